@@ -282,7 +282,11 @@ def _terminals(pa, pb):
 def _job(job):
     """('main'|'control-reduce'|'control-error', parser name) -> dict"""
     kind, name = job
-    pa, pb = _load(name)
+    try:
+        pa, pb = _load(name)
+    except Exception as e:  # pylint: disable=broad-except
+        # no freshly generated parser exists to compare the shipped one with (make_parser/lr1 raised)
+        return {"kind": kind, "name": name, "verdict": "generation-failed", "error": "%s: %s" % (type(e).__name__, str(e)[:400])}
     terminals = _terminals(pa, pb)
     if kind != "main":
         import copy
@@ -338,6 +342,18 @@ def main(tier):
     total_states = total_edges = 0
     controls_fired = controls_total = 0
     for r in results:
+        if r["verdict"] == "generation-failed":
+            if r["kind"] == "main":
+                # replayed here: generation is deterministic, run it once more in this process
+                try:
+                    _load(r["name"])
+                    rep.harness_error("generating the %s parser failed in the worker only: %s" % (r["name"], r["error"]))
+                except Exception as e:  # pylint: disable=broad-except
+                    rep.violation({"parser": r["name"], "kind": "generation"},
+                                  "no %s parser can be generated from the grammar and the error examples with the current code "
+                                  "(%s), so the shipped tables are not the freshly generated ones" % (r["name"], r["error"][:300]),
+                                  {"parser": r["name"], "generation_failed": True, "error": r["error"]})
+            continue
         if r["kind"] != "main":
             controls_total += 1
             controls_fired += r["verdict"] == "sat"
@@ -389,6 +405,15 @@ def replay_file(path):
     with open(path) as f:
         obj = json.load(f)
     r = obj["replay"]
+    if r.get("generation_failed"):
+        try:
+            _load(r.get("parser", "module"))
+        except Exception as e:  # pylint: disable=broad-except
+            print("replay: generating the %s parser fails: %s: %s" % (r.get("parser"), type(e).__name__, str(e)[:200]))
+            print("VIOLATION property=C09 replay=%s" % path)
+            return 1
+        print("replay: generation succeeds")
+        return 0
     if r.get("table_only"):
         print("replay: table-level difference (%s); re-run the check to confirm" % r.get("detail", ""))
         print("VIOLATION property=C09 replay=%s" % path)
